@@ -272,6 +272,23 @@ fn main_check(ctx: &Ctx) -> Outcome {
         }
     });
     out.push_part(json!({"system":"strip_bytes / StripStream / AutoStream::never one-shot","inputs":inputs.len(),"max_len":n_one}));
+    // ... and every input of <= 2 bytes over all 256 byte values, also between two letters (a fast path keyed on a
+    // byte value in the stream layer, not the adapter, is exercised too)
+    {
+        let all2: Vec<Vec<u8>> = (0..=255u8).map(|a| vec![a]).chain((0..=255u8).flat_map(|a| (0..=255u8).map(move |b| vec![a, b]))).collect();
+        all2.par_iter().for_each(|p| {
+            for inp in [p.clone(), [&b"x"[..], &p[..], b"y"].concat()] {
+                evals.fetch_add(1, Ordering::Relaxed);
+                if let Err((sys, m)) = guard(|| oneshot_bytes(&inp)).unwrap_or_else(|p| Err(("strip_bytes/streams".to_string(), p))) {
+                    let mut v = viol.lock().unwrap();
+                    if v.len() < 200 {
+                        v.push(finding(&sys, &clause_of(&m), vec![hex(&inp)], m, json!({"kind":"oneshot-bytes","input":hex(&inp)})));
+                    }
+                }
+            }
+        });
+        out.push_part(json!({"system":"strip_bytes / StripStream / AutoStream::never one-shot, all inputs of <= 2 bytes over 256 values, bare and between letters","inputs":all2.len() * 2}));
+    }
 
     // (3) text APIs: chunks of <= n chars from every reachable StripStr state; one-shot strip_str
     let n_str = if quick { 3 } else { 4 };
